@@ -17,4 +17,4 @@ elif cmd == 'fmt':
     r = d.call('format', hexs(src), *a)
     print(r[0], repr(unhexs(r[1])) if len(r) > 1 else '')
 else:
-    print(d.call(cmd, *sys.argv[2:]))
+    print(d.call(*sys.argv[2:]))
